@@ -132,6 +132,15 @@ pub fn exec(line: &str, _model: &mut Model) -> Option<Exec> {
                                hs.push(H::Meta(m)); }
                     }
                 }
+                "PN" => { // bundle_payload(NULL): a Buffer with null data, to be released with buffer_free like any other
+                    let b = counted(|| bundle_payload(std::ptr::null_mut()));
+                    let c = buf_content(b);
+                    out.push(format!("buf{}:{}", hs.len(), c.as_ref().map(|v| hex(v)).unwrap_or("null".into())));
+                    if c.is_some() && fail.is_none() { fail = Some("bundle_payload(NULL) returned data".into()); }
+                    hs.push(H::Buffer(b));
+                }
+                "FBN" => { counted(|| buffer_free(std::ptr::null_mut())); out.push("-".into()); }
+                "FUN" => { counted(|| bundle_free(std::ptr::null_mut())); out.push("-".into()); }
                 "FB" | "FU" | "FM" => {
                     let k: usize = p.get(1)?.parse().ok()?;
                     let cur = std::mem::replace(hs.get_mut(k)?, H::Freed);
@@ -171,14 +180,18 @@ pub fn generate(ctx: &mut Ctx, rep: &mut Report, emit: &mut dyn FnMut(&mut Ctx, 
         let n = 1 + rng.below(8);
         for _ in 0..n {
             match rng.below(10) {
-                0 => { if rng.chance(1, 3) { calls.push("R".into()); } else { calls.push("T".into()); } live_bufs.push(next); next += 1; if rng.chance(1, 10) { calls.push("W".into()); } }
+                0 => { if rng.chance(1, 3) { calls.push("R".into()); } else if rng.chance(1, 3) { calls.push("PN".into()); } else { calls.push("T".into()); } live_bufs.push(next); next += 1; if rng.chance(1, 10) { calls.push("W".into()); }
+                       if rng.chance(1, 10) { calls.push((if rng.chance(1, 2) { "FBN" } else { "FUN" }).into()); } }
                 1..=4 => {
                     // decode: valid bundle, mutated bundle, random bytes, empty
                     let bytes = match rng.below(8) {
                         0 => { let k = rng.below(40) as usize; rng.bytes(k) }
                         1 => vec![],
                         2 | 3 => { let mut b = gen_bundle(&mut rng, &Opts { wf: true, max_blocks: 4 }); let v = b.to_cbor(); crate::p_rx::mutate(&mut rng, &v) }
-                        _ => { let mut b = gen_valid_bundle(&mut rng); b.to_cbor() }
+                        _ => { let mut b = gen_valid_bundle(&mut rng);
+                               // any block order is valid on the wire: the payload block need not be last
+                               if rng.chance(1, 2) { for i in (1..b.canonicals.len()).rev() { let j = rng.below(i as u64 + 1) as usize; b.canonicals.swap(i, j); } }
+                               b.to_cbor() }
                     };
                     let ok = Bundle::try_from(bytes.as_slice()).ok().map(|b| b.validate().is_ok()).unwrap_or(false);
                     calls.push(format!("D:{}", hex(&bytes)));
